@@ -18,6 +18,12 @@
 // views are rooted at get, besides 0700, modes that refuse exactly one of
 // search, write, read to the view's user, and the operands of every view
 // include several spellings of the view's own root (ops.go: actorSpec).
+//
+// The same alphabet is explored on Windows-typed file systems (systems
+// "Windows:<variant>", build tag avfs_setostype, ostype.go): paths with volume,
+// rooted paths without volume, relative paths after a Chdir through the view
+// and the paths of a second volume that the parent holds, which have no
+// counterpart below a view's directory and must not reach anything.
 package main
 
 import (
@@ -117,6 +123,18 @@ func runReplay(file string) int {
 	return code
 }
 
+func countWin(names []string) int {
+	n := 0
+
+	for _, sn := range names {
+		if isWin(sn) {
+			n++
+		}
+	}
+
+	return n
+}
+
 func main() {
 	id := flag.String("id", "C11", "")
 	tier := flag.String("tier", "quick", "")
@@ -150,7 +168,12 @@ func main() {
 
 	// the core alphabet one level deeper than the bound (cheap, runs first so that a
 	// tight budget is spent on it completely), then the full alphabet to the bound
-	sysNames := []string{"core-admin@/", "core-users@/", "admin@/", "users@/", "admin@/p/q"}
+	// Windows:<variant>: the same on Windows-typed file systems (ostype.go); there the core
+	// alphabet goes as deep as on the Linux type and the full alphabet one level less deep
+	sysNames := []string{
+		"core-admin@/", "core-users@/", "admin@/", "users@/", "admin@/p/q",
+		"Windows:core-admin@/", "Windows:admin@/", "Windows:users@/", "Windows:admin@/p/q",
+	}
 	if *systems != "" {
 		sysNames = strings.Split(*systems, ",")
 	}
@@ -186,8 +209,11 @@ func main() {
 		alpha[sn] = numOps
 
 		sd := d
-		if isCore(sn) {
+		switch {
+		case isCore(sn):
 			sd = d + 1
+		case isWin(sn) && *depth == 0:
+			sd = d - 1
 		}
 
 		bounds = append(bounds, fmt.Sprintf("%s<=%d", sn, sd))
@@ -208,13 +234,21 @@ func main() {
 		}
 
 		if budget > 0 {
-			// what is left of the budget (minus bookkeeping) is shared by the systems still to run
+			// what is left of the budget (minus bookkeeping) is shared by the systems still to run;
+			// a twentieth is kept for the Windows-typed systems, which run last
 			left := time.Duration(budget)*time.Second - time.Since(start) - 10*time.Second
+			togo := len(sysNames) - si
+
+			if nw := countWin(sysNames[si:]); nw > 0 && nw < togo {
+				left -= time.Duration(budget) * time.Second / 20
+				togo -= nw
+			}
+
 			if left < time.Second {
 				left = time.Second
 			}
 
-			cfg.Deadline = time.Now().Add(left / time.Duration(len(sysNames)-si))
+			cfg.Deadline = time.Now().Add(left / time.Duration(togo))
 		}
 
 		st := bfs.Run(cfg, probe.OpString)
@@ -231,6 +265,7 @@ func main() {
 	}
 
 	states, trans := 0, 0
+	wstates, wtrans := 0, 0
 	outcomes := map[string]int{}
 	exh := true
 
@@ -239,6 +274,11 @@ func main() {
 	for _, st := range all {
 		states += st.States
 		trans += st.Transitions
+
+		if isWin(st.System) {
+			wstates += st.States
+			wtrans += st.Transitions
+		}
 
 		for k, n := range st.Outcomes {
 			outcomes[k] += n
@@ -304,11 +344,14 @@ func main() {
 				"Chmod of the directories views are rooted at to 0700 and (full alphabet) 0766/0755/0733, through the parent and through the view; " +
 				"re-creation of every view by 'V = receiver.Sub(spelling)' from the parent and from a view, spellings absolute clean, absolute with '.' and '..', and '.', '..', name relative to the receiver's working directory, " +
 				"followed by an independence probe: SetUMask, SetUser and Chdir applied to the new view and to its receiver, User/UMask/Getwd of all other actors compared), each executed on the real MemFS and in lock-step on a twin parent with prefixed paths; " +
+				"systems Windows:<variant>: the same alphabet spelled for Windows-typed file systems (volume C:, backslashes; the parent holds a second volume D: with directory v and file v\\w) plus the operands that exist there only, as operands of every call, of Rename/Link and of Sub, through parent, view, nested view and the view of the root: " +
+				"rooted paths without volume (`\\`, `\\q\\f`, `\\..\\o\\h`, `\\new`), '/' as separator (`C:/q/f`), paths of the other volume (`D:\\`, `D:\\v`, `D:\\v\\w`, `D:\\new`, and `D:\\q\\f`, `D:\\f` whose remainder exists below the view's root); every view is probed at creation for what the volume names mean inside it (signature field volumes); " +
 				"distinct_nontrivial = distinct (actor kind, call, twin outcome kind) classes observed on transitions",
 			"samples": samples, "outcome_class_samples": oc,
 			"exhaustive": exh, "bound": "histories of length: " + strings.Join(bounds, "; "),
 			"alphabet_sizes": alpha, "systems": all, "known_findings_matched": matched,
-			"violation_instances": rep.Total,
+			"violation_instances":    rep.Total,
+			"of_which_windows_typed": map[string]int{"states": wstates, "transitions": wtrans},
 		},
 		Assumptions: []string{
 			"reference = the parent's own behaviour on a twin instance (same tree, same user and umask, path = Join(dir, Clean(\"/\"+p))); defects that parent and view share are not flagged",
@@ -322,7 +365,14 @@ func main() {
 			"the modes enumerated for a view's root differ from 0777 in the group and others classes only (the view roots of the start state belong to the administrator, the non-admin users u1 and u2 are 'others' there); a refusal to the owner class arises only where a history lets a non-admin user create the directory a view is then rooted at",
 			"FileInfo.Name() of the view's root is not compared (a root has no name inside its own namespace); mtimes and file ids are not compared",
 			"state key = injected node-graph dump of the parent (VerifDump: names, types, modes, owners, link classes, bytes) + User/UMask/Getwd of every actor + chdir-done flag + directory and location of every view root; a Sub step always rebuilds the instance",
-			"symlinks are outside the property and not in the alphabet; Linux-typed MemFS only",
+			"symlinks are outside the property and not in the alphabet",
+			"Windows-typed systems are the library's own emulation (memfs.Options.OSType = avfs.OsWindows, build tag avfs_setostype) on a Linux host with a Linux-typed MemIdm (users root, u1, u2 as on the Linux type); the harness keeps its model (working directories, view roots, dump lines, twin paths) in slash form on the default volume for both OS types and translates at the call boundary; the Linux-typed systems are untouched by this (same alphabet, same counts)",
+			"Windows-typed: a view path with the default volume (`C:\\x`) corresponds to the parent path dir+`\\x`; the views of the alphabet are rooted on the default volume and the parent's working directory stays there (no Chdir of the parent to D:), because the statement does not say what volume name a view rooted on another volume shows",
+			"Windows-typed: an operand that names another volume (`D:\\...`) has no counterpart below dir. Judged: the call succeeds or fails as the twin parent's call on the same path of a volume that does not exist (`Q:\\...`); WHICH error is not compared, and a panic the parent shares there (MkdirAll) is the parent's defect, not the view's; the trees stay equal, nothing outside dir changes, the view's own state does not move; a read-only call that answers what the parent answers for that very path is reported as outside-read. Also judged through a view whose root was renamed or removed as far as 'nothing outside changes' goes",
+			"Windows-typed: a rooted path without volume (`\\q\\f`) is made absolute by the library's own lexical avfs.Abs on the actor's model working directory before it is prefixed (what such a string means relative to a working directory belongs to the lexical functions, property C13; parent and view share it); it is not an absolute path of the emulated OS, so it is judged like a relative operand: in full only after a Chdir through the view",
+			"Windows-typed: signatures carry ostype=Windows and volumes = result of a probe run on every view when it is created (setup and 'V = receiver.Sub'): view.Sub(`C:\\`) must be rooted at the view's own root (injected VerifRootIs) and view.Sub(`D:\\`) must fail -> 'own'; anything else is spelled out (C:=parent-root,D:=reachable) and reported once as kind volume-table; for a report that involves an observer or victim the first class that is not 'own' is taken. Signatures of Linux-typed systems carry neither field",
+			"Windows-typed: if V1.Sub(`C:\\q`) fails during setup this is reported as a violation (setup:Sub, outcome) and the exploration continues with parent.Sub(`C:\\p\\q`) in the place of the nested view",
+			"the Windows-typed systems run after the Linux-typed ones; their full alphabet is explored one level less deep than on the Linux type (quick: every single call of the full alphabet in the three start states; the core alphabet as deep as on the Linux type); under a time budget a twentieth of it is kept for them",
 		},
 		Violations: rep.NewCount(),
 	}
